@@ -68,6 +68,13 @@ ChainOk(stages, fl, x, ok, out) ==
     IF Run(stages, x, fl)[1] THEN ok => out = <<Run(stages, x, fl)[2]>>      \* (an error without cause is a refusal)
     ELSE ~ok                                                                   \* a failing / timed-out item surfaces as an error
 
+(* Pipeline::process_batch with one stage of kind k over a whole input vector: one result per      *)
+(* input, in input order; an item that fails or times out in the MIDDLE of the batch makes the      *)
+(* call an error - never a shorter vector, never the results of the later items moved up            *)
+BatchChainOk(k, fl, in, ok, out) ==
+    IF \E i \in 1..Len(in) : Bad(k, in[i], fl) THEN ~ok
+    ELSE ok => (Len(out) = Len(in) /\ \A i \in 1..Len(in) : out[i] = App(k, in[i]))
+
 (* execute_stream: the items were sent in input order (ids 1..n); outIds / outVals is what the     *)
 (* output channel delivered until it closed, ok is the result of the call.  Every accepted input    *)
 (* yields exactly one output, in order, equal to the composition; when an item fails in some stage  *)
@@ -236,6 +243,9 @@ FWriteAll(data, ok) ==
     ELSE UNCHANGED fio
 (* after flush: the bytes found in the file *)
 FContent(bytes) == bytes = fio.content /\ UNCHANGED fio
+
+(* FiberFile::copy_to(dst) from the current position of the source: the rest of the source *)
+CopyFromOk(src, pos, ok, n, dst) == ok => (n = Len(Slice(src, pos, Len(src))) /\ dst = Slice(src, pos, Len(src)))
 
 (* self-contained calls (state predicates) *)
 (* FiberAio::copy(src, dst) -> Ok(n) *)
